@@ -21,14 +21,14 @@ pub fn def() -> PropDef {
             "SetScale_UpU64", "SetScale_UpBig", "TenPow_Lt20", "TenPow_Lt590", "TenPow_Recursive",
             "Tows_UpU64", "Tows_UpBig", "WithScale_Up",
         ],
-        rule: "seeded pairs (a, partner(a)): digit-string families (random, all-nines, 10^k, d00..0d, tie tails, mostly-9/0) of 1..3000 digits, scales within +-10^4, scale gaps 0..45 / 19,20,21 / 255..257 / 589..591 / up to 10^4, twins, near twins, zeros with scale, ones written 1.00; every case runs ~135 call shapes (9+9+4 decimal forms and all assign forms in both operand orders, 36 BigInt forms, 32 forms x 6..9 values of one primitive type chosen by the case, 13 derived ops) each compared by value with the exact model. distinct = distinct (a, b, selector) triples; non-trivial = both operands non-zero",
+        rule: "exhaustive small scope: every ordered pair of values n*10^-s with |n| <= 25, s in -2..2 through all call shapes; then seeded pairs (a, partner(a)): digit-string families (random, all-nines, 10^k, d00..0d, tie tails, mostly-9/0) of 1..3000 digits, scales within +-10^4, scale gaps 0..45 / 19,20,21 / 255..257 / 589..591 / up to 10^4, twins, near twins, zeros with scale, ones written 1.00; every case runs ~135 call shapes (9+9+4 decimal forms and all assign forms in both operand orders, 36 BigInt forms, 32 forms x 6..9 values of one primitive type chosen by the case, 13 derived ops) each compared by value with the exact model. distinct = distinct (a, b, selector) triples; non-trivial = both operands non-zero",
     }
 }
 
 fn plan(tier: Tier) -> Vec<Unit> {
     match tier {
-        Tier::Quick => crate::util::split_budget("pairs", 3_200, 100),
-        Tier::Thorough => crate::util::split_budget("pairs", 160_000, 250),
+        Tier::Quick => { let mut v = crate::util::split_budget("pairs", 3_200, 100); v.extend(crate::util::split_budget("small", 255, 5)); v }
+        Tier::Thorough => { let mut v = crate::util::split_budget("pairs", 160_000, 250); v.extend(crate::util::split_budget("small", 255, 3)); v }
         Tier::Miri => crate::util::split_budget("pairs", 4, 2),
     }
 }
@@ -43,6 +43,20 @@ fn lmax(unit: &Unit, idx: u64) -> usize {
 }
 
 fn run_unit(unit: &Unit, r: &mut Rng, ctx: &mut Ctx) {
+    if unit.kind == "small" {
+        // exhaustive: every ordered pair of values n*10^-s with |n| <= 25, s in -2..=2, all ~135 call shapes
+        let val = |i: u64| Dec::new(BigInt::from((i / 5) as i64 - 25), (i % 5) as i64 - 2);
+        for i in unit.start..unit.start + unit.count {
+            for j in 0..255u64 {
+                let case = Case::new("pair").push(val(i).tok()).push(val(j).tok()).push(i * 255 + j);
+                check_case(&case, ctx);
+            }
+        }
+        if unit.start == 0 {
+            ctx.exhaustive_notes.push("C01 small scope: every ordered pair of values n*10^-s with |n| <= 25, s in -2..2 (65 025 pairs x ~135 call shapes; the primitive type rotates with the pair index)".into());
+        }
+        return;
+    }
     for i in 0..unit.count {
         let lm = lmax(unit, i);
         let a = match r.below(16) {
